@@ -7,11 +7,15 @@
     [ids_sound t s]   the hash-cons table is sound under [s] -- this is how
                       "consistent with the constants replaced so far" is expressed
                       (a replaced surface stays in the table mapped to an alias of true/false);
-    [Ok _]            no assertion site reached, no exception, fuel sufficient. *)
+    [Ok _]            no assertion site reached, no exception, fuel sufficient;
+    [exchange_fx], [replace_and_simplify_fx], [simplify_tree_fx] (C10/CsgFixed.v) model the code
+    as it is (exchange repaired in /repo d70f3c2); [exchange chk] etc. (C10/Csg.v) model the
+    code BEFORE the repair and appear only in the [*_before_repair_refuted] witnesses. *)
 From Coq Require Import List Arith Bool NArith ZArith.
-From Celer Require Import C10.Csg C10.Logic C10.DeMorgan C10.Sense C10.Run
+From Celer Require Import C10.Csg C10.CsgFixed C10.Logic C10.DeMorgan C10.Sense C10.Run C10.RunFixed
   C10.CsgProofs C10.LogicProofs C10.ReplaceProofs C10.FlagProofs C10.DeMorganProofs C10.Witness
-  C10.InfixProofs C10.DeMorganNJ C10.SenseProofs C10.InfixStringProofs C10.Witness2 C10.Witness3.
+  C10.InfixProofs C10.DeMorganNJ C10.SenseProofs C10.InfixStringProofs C10.CsgFixedProofs
+  C10.Witness2 C10.Witness3 C10.WitnessFixed.
 Import ListNotations.
 
 (** NodeSimplifier: the replacement evaluates like the given node, for every
@@ -49,22 +53,32 @@ Theorem C10_insert_sound : forall t n t' i b,
 Proof. exact insert_sound. Qed.
 Print Assumptions C10_insert_sound.
 
-(** CsgTree::exchange (with the one extra topological check in the swap
-    branch, see [C10_exchange_topo_refuted]): values, table, order kept; and
-    the unchecked (faithful) function returns the same result. *)
+(** CsgTree::exchange (as repaired in /repo d70f3c2; model [exchange_fx],
+    C10/CsgFixed.v): for a replacement whose operands are below [i], the tree
+    invariants INCLUDING the topological order are kept, and for every
+    assignment under which the table is sound and the replacement is justified
+    every node keeps its value and the table stays sound. No extra check. *)
 Theorem C10_exchange_sound : forall t i n t' old,
-  inv t -> exchange true t i n = Ok (t', old) ->
+  inv t -> exchange_fx t i n = Ok (t', old) ->
   (forall c, In c (children n) -> c < i) ->
   inv t' /\ size t' = size t /\ volumes t' = volumes t /\
-  exchange false t i n = Ok (t', old) /\
   forall s, ids_sound t s -> eval_node s (eval t s) n = eval t s i ->
     ids_sound t' s /\ forall k, eval t' s k = eval t s k.
-Proof. exact exchange_sound. Qed.
+Proof. exact exchange_fx_sound. Qed.
 Print Assumptions C10_exchange_sound.
 
-(** The faithful exchange can lose the topological order although its
-    documented preconditions hold (witness replayed on the real code). *)
-Theorem C10_exchange_topo_refuted :
+(** the repaired exchange returns what the exchange before the repair
+    ([exchange], C10/Csg.v) returned wherever that one kept the order *)
+Theorem C10_exchange_repair_agrees : forall t i n r,
+  exchange true t i n = Ok r -> exchange_fx t i n = Ok r.
+Proof. exact exchange_fx_agrees. Qed.
+Print Assumptions C10_exchange_repair_agrees.
+
+(** BEFORE the repair ([exchange false] = the code up to 63841d1) exchange
+    could lose the topological order although its documented preconditions
+    held (finding R1, fixed; the witness is replayed on every run and must keep
+    the order now). *)
+Theorem C10_exchange_before_repair_refuted :
   exists t i n t' old,
     tree_after empty_tree r1_ops = Ok t /\
     inv t /\ (forall c, In c (children n) -> c < i) /\
@@ -72,7 +86,7 @@ Theorem C10_exchange_topo_refuted :
     (exists s, ids_sound t s /\ eval_node s (eval t s) n = eval t s i) /\
     ~ wf t'.
 Proof. exact exchange_topo_refuted_w. Qed.
-Print Assumptions C10_exchange_topo_refuted.
+Print Assumptions C10_exchange_before_repair_refuted.
 
 (** PostfixLogicBuilder + calc_max_depth + LogicEvaluator on the W-bit
     LogicStack: the reported depth is exactly the greatest stack height, and
@@ -112,24 +126,23 @@ Theorem C10_calc_max_depth_invalid : forall vf l st',
 Proof. exact calc_max_depth_invalid. Qed.
 Print Assumptions C10_calc_max_depth_invalid.
 
-(** replace_and_simplify: for every assignment consistent with the earlier
-    replacements and with the new constant, every node keeps its value. *)
+(** replace_and_simplify (on the repaired exchange): for every assignment
+    consistent with the earlier replacements and with the new constant, every
+    node keeps its value; invariants incl. topological order and size kept. *)
 Theorem C10_replace_and_simplify_sound : forall fuel t key value t' unk,
-  inv t -> replace_and_simplify true fuel t key value = Ok (t', unk) ->
+  inv t -> replace_and_simplify_fx fuel t key value = Ok (t', unk) ->
   inv t' /\ size t' = size t /\
-  replace_and_simplify false fuel t key value = Ok (t', unk) /\
   forall s, ids_sound t s -> eval t s key = value ->
     ids_sound t' s /\ forall k, eval t' s k = eval t s k.
-Proof. exact replace_and_simplify_sound. Qed.
+Proof. exact replace_and_simplify_fx_sound. Qed.
 Print Assumptions C10_replace_and_simplify_sound.
 
-(** simplify (iterated simplify_up sweeps) *)
+(** simplify (iterated simplify_up sweeps, on the repaired exchange) *)
 Theorem C10_simplify_sound : forall t start t',
-  inv t -> simplify_tree true t start = Ok t' ->
+  inv t -> simplify_tree_fx t start = Ok t' ->
   inv t' /\ size t' = size t /\ volumes t' = volumes t /\
-  simplify_tree false t start = Ok t' /\
   forall s, ids_sound t s -> ids_sound t' s /\ forall j, eval t' s j = eval t s j.
-Proof. exact simplify_tree_sound. Qed.
+Proof. exact simplify_tree_fx_sound. Qed.
 Print Assumptions C10_simplify_sound.
 
 (** InternalSurfaceFlagger: a node not flagged is a nested conjunction of
@@ -144,11 +157,11 @@ Print Assumptions C10_flag_simple_sound.
     public API) the flag is wrong (witness replayed on the real code). *)
 Theorem C10_flag_simple_alias_refuted :
   exists t n s x,
-    tree_after empty_tree r2_ops = Ok t /\ inv t /\
+    tree_after_fx empty_tree r2_ops = Ok t /\ inv t /\
     flag_internal (S (size t)) t n = Ok false /\
     In x (surfs (S (size t)) t n) /\
     eval t s n = true /\ eval t (flip x s) n = true.
-Proof. exact flag_simple_alias_refuted_w. Qed.
+Proof. exact flag_simple_alias_refuted_fx_w. Qed.
 Print Assumptions C10_flag_simple_alias_refuted.
 
 (** transform_negated_joins (DeMorganSimplifier): every volume of the output
@@ -201,15 +214,13 @@ Theorem C10_infix_eval_correct : forall t s fuel n l,
 Proof. intros t s fuel n l Hw. exact (infix_eval_correct t s Hw fuel n l). Qed.
 Print Assumptions C10_infix_eval_correct.
 
-(** The faithful (unchecked) replace_and_simplify can lose the topological
-    order WITHOUT any user-level exchange: on a tree reached by insert /
-    insert_volume / replace_and_simplify only ([r3_ops], C10/Witness3.v), with
-    a consistent assignment, it returns a tree in which node 9 is an alias of
-    the higher node 10; the checked variant stops at the swap. This is why
-    [C10_replace_and_simplify_sound] / [C10_simplify_sound] are stated through
-    the checked variant: the hypothesis "the check passes" cannot be dropped.
-    Witness replayed on the real code on every run (corpus "@R3"). *)
-Theorem C10_replace_and_simplify_topo_refuted :
+(** BEFORE the repair, replace_and_simplify ALONE (no user-level exchange)
+    could lose the topological order: on a tree reached by insert /
+    insert_volume / replace_and_simplify only ([r3_ops], C10/Witness3.v), with a
+    consistent assignment, the old function returned a tree in which node 9
+    aliases the higher node 10 (finding R3, fixed together with R1; witness
+    replayed on every run, must keep the order now: [ex_fx_r3]). *)
+Theorem C10_replace_and_simplify_before_repair_refuted :
   exists t t' unk,
     forallb production_op r3_ops = true /\
     tree_after empty_tree r3_ops = Ok t /\
@@ -220,7 +231,7 @@ Theorem C10_replace_and_simplify_topo_refuted :
     ~ wf t' /\
     replace_and_simplify true (rs_fuel t) t 7 false = Assert.
 Proof. exact replace_topo_refuted_w. Qed.
-Print Assumptions C10_replace_and_simplify_topo_refuted.
+Print Assumptions C10_replace_and_simplify_before_repair_refuted.
 
 (** SenseEvaluator (recursive evaluation with short circuit, three-valued
     SignedSense): at a point off every surface it returns "inside" exactly when
